@@ -632,6 +632,112 @@ pub fn replay(v: &Value) -> Outcome {
     }
 }
 
+/// String escape forms that ECMAScript defines but the translator may not support (it may reject
+/// them): identity escapes, line continuations, legacy octal escapes. If a literal using them is
+/// accepted, the embedded value must be the ECMAScript value.
+fn run_optional_escapes(ch: &mut Chooser) -> Outcome {
+    let q = if ch.chance(1, 3) { '\'' } else { '"' };
+    let mut text = String::new();
+    let mut value = String::new();
+    text.push(q);
+    let n = 1 + ch.below(4);
+    let mut forms = 0u64;
+    for _ in 0..n {
+        // plain run
+        for _ in 0..ch.below(3) {
+            let c = *ch.pick(&['a', 'Z', '0', '7', '8', ' ', '-', '/', 'é', '%']);
+            text.push(c);
+            value.push(c);
+        }
+        forms += 1;
+        match ch.below(6) {
+            0 => {
+                // identity escape (NonEscapeCharacter): the character itself
+                ch.label("escape-identity");
+                let c = *ch.pick(&['/', '-', 'q', 'A', ' ', '%', '8', '9', '#', 'é', 'z', 'c', 'e', 'a']);
+                text.push('\\');
+                text.push(c);
+                value.push(c);
+            }
+            1 => {
+                // line continuation: contributes nothing
+                ch.label("escape-line-continuation");
+                text.push('\\');
+                text.push_str(*ch.pick(&["\n", "\r\n", "\r", "\u{2028}", "\u{2029}"]));
+            }
+            2 => {
+                // legacy octal, one digit, not followed by an octal digit
+                ch.label("escape-legacy-octal");
+                let d = 1 + ch.below(7) as u32;
+                text.push_str(&format!("\\{d}"));
+                value.push(char::from_u32(d).unwrap());
+                let follow = *ch.pick(&['8', '9', 'a', ' ', '"']);
+                if follow != q && follow != '"' {
+                    text.push(follow);
+                    value.push(follow);
+                }
+            }
+            3 => {
+                // legacy octal, two or three digits (ZeroToThree OctalDigit OctalDigit / FourToSeven OctalDigit)
+                ch.label("escape-legacy-octal");
+                let v = *ch.pick(&[0o12u32, 0o101, 0o377, 0o40, 0o7, 0o77, 0o141, 0o60]);
+                let sp = if v >= 0o100 || ch.chance(1, 2) { format!("\\{v:o}") } else { format!("\\{v:02o}") };
+                // \400 is \40 followed by '0': keep values below 0o400 and terminate with a non-octal character
+                text.push_str(&sp);
+                value.push(char::from_u32(v).unwrap());
+                text.push('x');
+                value.push('x');
+            }
+            4 => {
+                // \0 followed by 8 or 9: NUL then the digit (\0 with lookahead not a decimal digit is the only strict form)
+                ch.label("escape-nul-before-non-octal-digit");
+                let d = *ch.pick(&['8', '9']);
+                text.push_str("\\0");
+                text.push(d);
+                value.push('\0');
+                value.push(d);
+                if ch.chance(1, 2) {
+                    // NUL is not an XML character: keep this variant apart from the XML-clean ones
+                    ch.label("escape-value-contains-nul");
+                }
+            }
+            _ => {
+                // standard forms as control
+                ch.label("escape-standard-control-case");
+                text.push_str("\\x41\\u0042\\u{43}\\t");
+                value.push_str("ABC\t");
+            }
+        }
+    }
+    text.push(q);
+    let qml = format!("import qmluic.QtWidgets\nQWidget {{\n    VSrc {{\n        s0: {text}\n    }}\n}}\n");
+    let t = translate(&qml, "T", Mode::Generate);
+    let detail = |why: &str| json!({"qml": qml, "why": why, "ui": t.ui_str(), "diagnostics": t.diag_summary(), "panic": t.panic});
+    if let Some(p) = &t.panic {
+        return Outcome::fail("c03-panic", format!("translator panicked: {p}"), detail(p));
+    }
+    if !t.accepted() {
+        ch.label("optional-escape-form-rejected");
+        return Outcome::pass(None).count("optional_escape_literals_rejected", 1);
+    }
+    if value.contains('\0') {
+        // the .ui cannot carry U+0000 (known finding of C09); nothing to compare
+        return Outcome::skip("value contains U+0000 (not an XML character)");
+    }
+    let f = match form::decode(t.ui.as_deref().unwrap_or_default()) {
+        Ok(f) => f,
+        Err(e) => return Outcome::fail("c03-undecodable", e.clone(), detail(&e)),
+    };
+    let got = f.root.children.first().and_then(|c| c.obj.prop("s0")).map(|p| p.value.clone());
+    match got {
+        Some(FValue::Str { text: g, .. }) if g == value => Outcome::pass(Some(stable_hash(&text))).count("optional_escape_forms_accepted_and_checked", forms),
+        other => {
+            let why = format!("s0: {text} embeds {other:?}, the literal denotes {value:?}");
+            Outcome::fail("c03-wrong-string-escape", why.clone(), detail(&why))
+        }
+    }
+}
+
 pub fn run(env: &Env, known: &Known, started: Instant, replayed: u64, replay_violations: Vec<Violation>) -> i32 {
     let cfg = ChoiceRun { env, pid: PID, part: "constants", cases: env.tier.pick(24_000, 700_000), max_len: 1500, known };
     let mut rr = run_choices(&cfg, run_valid);
@@ -643,9 +749,13 @@ pub fn run(env: &Env, known: &Known, started: Instant, replayed: u64, replay_vio
     let r3 = run_choices(&cfg, run_relational_chain_probe);
     rr.stats.merge(r3.stats);
     rr.violations.extend(r3.violations);
+    let cfg = ChoiceRun { env, pid: PID, part: "optional-escapes", cases: env.tier.pick(6_000, 100_000), max_len: 64, known };
+    let r4 = run_choices(&cfg, run_optional_escapes);
+    rr.stats.merge(r4.stats);
+    rr.violations.extend(r4.violations);
     let ev = Evidence {
         env, pid: PID, level: "exploration",
-        rule: "(a) literal spellings generated value-first: integers 0..2^63-1 as decimal, 0x/0X, 0o/0O, 0b/0B, legacy octal, legacy leading-zero decimal, with _ separators; doubles as d.d / .d / d. / exponent forms; strings with raw characters and \\n-style, \\xHH, \\uHHHH, \\u{H} escapes in both quote styles, over ASCII, quotes, backslashes, controls, Latin-1, BMP, astral; (b) constant expressions of depth <= 4 over those literals with unary + - ~ !, + - * / %, & ^ |, << >>, all comparisons on ints/doubles/strings/bools, string +, flag sets, string lists with/without qsTr, object references, each on a property of matching type (int, uint, double, bool, QString, enum, flags, QStringList, pointer; ~15 bindings per object); (c) undefined constants (division/remainder by zero, results beyond i64 incl. by << and unary minus, negative or >= 64 shift counts) and (d) integer constants on double properties / double constants on int properties, one per document, which must be rejected with an error inside the binding. Oracle: the harness' own evaluator (checked i64, IEEE doubles, Unicode strings) vs. the value decoded from the .ui (integers as exact decimal numerals, doubles bit-equal after parsing). Non-trivial = non-canonical spelling, >= 2 operator classes, or an undefined/typing case; distinct by text hash.",
+        rule: "(e) string literals built from escape forms ECMAScript defines but the translator need not support (identity escapes such as \\/ and \\-, line continuations with LF/CRLF/CR/LS/PS, legacy octal escapes of one to three digits, \\0 before 8/9): rejecting them is fine, accepting them requires the ECMAScript value in the .ui. (a) literal spellings generated value-first: integers 0..2^63-1 as decimal, 0x/0X, 0o/0O, 0b/0B, legacy octal, legacy leading-zero decimal, with _ separators; doubles as d.d / .d / d. / exponent forms; strings with raw characters and \\n-style, \\xHH, \\uHHHH, \\u{H} escapes in both quote styles, over ASCII, quotes, backslashes, controls, Latin-1, BMP, astral; (b) constant expressions of depth <= 4 over those literals with unary + - ~ !, + - * / %, & ^ |, << >>, all comparisons on ints/doubles/strings/bools, string +, flag sets, string lists with/without qsTr, object references, each on a property of matching type (int, uint, double, bool, QString, enum, flags, QStringList, pointer; ~15 bindings per object); (c) undefined constants (division/remainder by zero, results beyond i64 incl. by << and unary minus, negative or >= 64 shift counts) and (d) integer constants on double properties / double constants on int properties, one per document, which must be rejected with an error inside the binding. Oracle: the harness' own evaluator (checked i64, IEEE doubles, Unicode strings) vs. the value decoded from the .ui (integers as exact decimal numerals, doubles bit-equal after parsing). Non-trivial = non-canonical spelling, >= 2 operator classes, or an undefined/typing case; distinct by text hash.",
         assumptions: vec![
             "documents the translator rejects are counted, not judged (acceptance is C05's subject); expressions the translator does not treat as constant are counted as not embedded (C04's subject)".into(),
             "non-finite double results and string orderings where UTF-16 and code-point order differ are skipped".into(),
